@@ -322,6 +322,18 @@ class Own:
                                     o3["state"] = "escaped"
                                     o3["escapes"].append(("linked", i))
                             continue
+                        if o is not None and o["state"] == "escaped" and o["site"] is not None and name not in RELEASERS and name not in CONSUMERS:
+                            # an object that has been registered somewhere (escaped) and is now handed to an own function that
+                            # frees its argument on EVERY path: from here on it is released - a later release by this caller
+                            # (which un-registered it and cleans up itself) is a second one
+                            for tn in targets:
+                                g = P.functions.get(tn)
+                                if g is not None and P.own(g):
+                                    cls, conds = Q.class_of_call(view, i)
+                                    if self.param_fate(g, ak, cls, conds) == "released":
+                                        o["state"] = "released"
+                                        o["released_at"] = i
+                            continue
                         if o is None or o["state"] != "owned":
                             continue
                         for tn in targets:
